@@ -105,7 +105,7 @@ CHECKS = {
          "__float128 reference), fit_bspline span, reparameterize_spline monotone / onto / start speed.",
     design="4/C14", technique="explicit-state enumeration of finite input product spaces against definitional reference models"),
  "C15": dict(
-    text="Explicit-state breadth-first search over ALL programs up to depth 3-4 (quick; 5-6 thorough) over a ~30-operation "
+    text="Explicit-state breadth-first search over ALL programs up to depth 5 (quick, 2.5e7 states; depth 6 thorough, 2.9e8 states; 4 / 5 for the three-part Bundle) over a ~30-operation "
          "alphabet (compose, inverse, *=, +=, rplus, exp, same-scalar cast, lift/project) on a register file of two elements and two tangents "
          "of the real objects, 3 initial files incl. half-turn / q_w~0 / near-identity elements and switch / near-pi tangents, states merged "
          "by the exact bit pattern of the registers; plus every homogeneous chain and every period-2 program unrolled to 1e4 (1e5) steps with "
